@@ -15,6 +15,7 @@ from vt.world import World, WSpec, Abort
 
 ID = 'C11'
 KINDS = ['enum']
+USES_KERNEL = True
 LEVEL = 'exploration'
 TECHNIQUE = ('bounded-exhaustive enumeration of corrupted requests (1 and 2 corrupted fields per valid request of every '
              'command, bad option at every position of multi-option set/add) x daemon states x every loop-iteration '
